@@ -153,8 +153,11 @@ func c16Lifetimes(c *Ctx, fn *ssa.Function, fields []string) {
 		nCalls := 0
 		p.Instrs(func(in ssa.Instruction) {
 			if ci, ok := in.(ssa.CallInstruction); ok {
-				if isClockExpr(p.Of(ci.(ssa.Value))) {
-					nCalls++
+				// the read itself, not a helper call whose (inlined) result is the read
+				if v, isV := ci.(ssa.Value); isV {
+					if e := p.Of(v); isClockExpr(e) && e.V == v {
+						nCalls++
+					}
 				}
 			}
 		})
